@@ -2,12 +2,13 @@
 
 Correspondence: RunEnvironment::from_raw(..).run() (hooks: fetch budget + trace, injected input,
 captured output, exit -> unwind) vs. Vm.from_raw / Vm.vm_run (extracted)."""
-import random
+import os, random
 from core import log
 from lc3 import *
+import clicommon
 
 ASSUMPTIONS = [
-    "real stdin/stdout/TTY behaviour (is_terminal, flushing, raw mode) is outside the model; console I/O is observed through the lace_verif buffers",
+    "terminal (TTY) input - raw mode, key decoding - is outside the model; in-process runs observe console I/O through the lace_verif buffers, and the real-binary stage observes a piped stdin / stdout of the real process (including the end of the input stream)",
     "output is observed through lace's --minimal filter",
 ]
 
@@ -288,9 +289,12 @@ def correspondence(ctx, violations, known_hits):
                                        "format": "kind code pc cc r0..r7 nout out.. inp_left nmem (addr val).. nfetch tracehash; "
                                                  "kind 0 finished 1 exit 2 panic 3 hung 4 out-of-fuel 5 loader-reject",
                                        "note": "MODEL = SPEC is proved (C03_run, C03_load), so on this image the implementation departs from the reference machine"})
+    real = real_binary(ctx, cases, tnames, violations)
+    evaluations += real["runs"]
     ctx.cleanup()
     return {
         "evaluations": evaluations,
+        "real_binary": real,
         "distinct_nontrivial": len(sigs),
         "rule": "images = fixed corpus (loader boundaries, witnesses of repaired defects) + seeded structured programs "
                 "(counted loops, back-edge to the origin, nested JSR/RET, CALL/RETS, recursion, self-modifying stores, "
@@ -302,6 +306,57 @@ def correspondence(ctx, violations, known_hits):
         "stop_kind_histogram": hist, "template_histogram": thist, "profiles": profiles,
         "samples": samples, "mismatches": nviol,
     }
+
+
+def real_run(exe, sub, case):
+    """The real binary on the image of [case] with the case's input as its (piped) standard input."""
+    feat, _, raw, inp = parse_case(case)
+    os.makedirs(sub, exist_ok=True)
+    with open(os.path.join(sub, "img.lc3"), "wb") as f:
+        f.write(b"".join(bytes([w >> 8, w & 255]) for w in raw))
+    rc, so, se = clicommon.run_cli(exe, ["run", "img.lc3", "--minimal"] + (["-f", "stack"] if feat else []), sub,
+                                   stdin=bytes(inp), timeout=20)
+    return rc, clicommon.program_output(so), se.decode("utf-8", errors="replace")[-300:]
+
+
+def real_binary(ctx, cases, tnames, violations):
+    """The same images through the REAL process: `lace run img.lc3` with the input bytes on a pipe (the in-process runs
+    inject input below the reader in read_byte_stdin, so the end of a real stream is only seen here)."""
+    exe = ctx.cli()
+    rnd = random.Random(ctx.seed + 3)
+    want = 250 if ctx.tier == "quick" else 4000
+    reading = [i for i, c in enumerate(cases) if tnames[i] in ("corpus", "prog_input", "prog_trap_high_bits", "prog_strings") or " f020 " in c + " " or " f023 " in c + " "]
+    pick = sorted(set(reading[:want // 2] + rnd.sample(range(len(cases)), min(len(cases), want // 2))))
+    # designed: reads at and past the end of the input, all byte values
+    extra = []
+    for body in ([GETC, OUT, GETC, OUT, HALT], [IN, HALT], [GETC, IN, GETC, PUTN, HALT], [GETC, GETC, GETC, REG, HALT],
+                 [LEA(0, 3), PUTS, GETC, HALT, 0x3F, 0], [GETC, OUT, BR(7, -3)]):
+        for inp in ([], [0x41], [0x41, 0x42], [0xE9], [0, 0], [0x0A, 0xFF, 0x80]):
+            extra.append(case_line(0, 20000, [0x3000] + body, inp))
+    sel = [case_line(parse_case(cases[i])[0], 20000, *parse_case(cases[i])[2:]) for i in pick] + extra
+    model = ctx.run_model(sel, tag="c03real")
+    d = clicommon.fresh_dir(ctx, "real")
+    todo = []
+    skipped = 0
+    for k, c in enumerate(sel):
+        code, out, kind = clicommon.model_obs(model[k][0])
+        if kind in (3, 4):
+            skipped += 1
+            continue
+        todo.append((k, c, code, out, kind))
+    res = clicommon.parallel([(lambda k=k, c=c: real_run(exe, os.path.join(d, str(k)), c)) for k, c, *_ in todo])
+    bad, hist = 0, {}
+    for (k, c, code, out, kind), (rc, pout, err) in zip(todo, res):
+        hist[KINDS.get(kind, str(kind))] = hist.get(KINDS.get(kind, str(kind)), 0) + 1
+        if rc != code or (out is not None and pout != out):
+            bad += 1
+            if bad <= 5:
+                violations.append({"kind": "real-binary-vs-model", "case": c, "stdin": bytes(parse_case(c)[3]).hex(),
+                                   "cli": [rc, pout], "stderr_tail": err, "model": [code, out], "model_line": model[k][0],
+                                   "note": "`lace run img.lc3 --minimal` with the input on a pipe; MODEL = SPEC is proved (C03_run), "
+                                           "so the process departs from the reference machine on this image and input"})
+    return {"runs": len(todo), "skipped_nonterminating": skipped, "mismatches": bad, "stop_kind_histogram": hist,
+            "designed_end_of_input_cases": len(extra)}
 
 
 def parse_case(case):
@@ -346,6 +401,16 @@ def shrink(ctx, case, prof):
 
 def replay(ctx, payload):
     case = payload["case"]
+    if payload.get("kind") == "real-binary-vs-model":
+        m = ctx.run_model([case], tag="replay")[0]
+        code, out, kind = clicommon.model_obs(m[0])
+        rc, pout, err = real_run(ctx.cli(), clicommon.fresh_dir(ctx, "replay-real"), case)
+        log(f"case  : {case}")
+        log(f"cli   : exit {rc} output {pout!r}  stderr ...{err!r}")
+        log(f"model : exit {code} output {out!r}")
+        same = rc == code and (out is None or pout == out)
+        log("agree" if same else "DISAGREE")
+        return 0 if same else 1
     ri, rm, _ = ctx.run_both([case], profile=payload.get("profile", "debug"), tag="replay")
     spec = ctx.run_model([case.replace("C03 ", "C03S ", 1)], tag="spec")
     log(f"case           : {case}")
